@@ -170,6 +170,12 @@ pub enum CEvent {
     ReqU(Token),
     /// request.then_request(..).then_stream(..).then_send(..)
     ReqV(Token),
+    /// spawn-then-self-abort, immediately: task X `ctx.spawn`s a child (capturing a token) and
+    /// aborts its own command in one poll, with a sibling task Z ready behind it in the same pass
+    ReqSA0,
+    /// the same after a request: X awaits request a, wakes the sibling Z (a channel Z awaits),
+    /// `ctx.spawn`s a child capturing a token and calls the command's own AbortHandle
+    ReqSA(Token),
     /// nothing: one further core call
     Noop,
     Sub(Token),
@@ -308,6 +314,39 @@ where
                 let _held = &tok;
                 CEvent::Got(o, Token::new())
             }),
+        CEvent::ReqSA0 => {
+            let mut cmd = Command::done();
+            let own = cmd.abort_handle();
+            cmd.spawn(move |ctx| async move {
+                let child_tok = Token::new();
+                ctx.spawn(move |_ctx| async move {
+                    let _held = child_tok;
+                });
+                own.abort();
+            });
+            cmd.spawn(|_ctx| async move {});
+            cmd
+        }
+        CEvent::ReqSA(tok_x) => {
+            let mut cmd = Command::done();
+            let own = cmd.abort_handle();
+            let (tx, rx) = futures::channel::oneshot::channel::<()>();
+            cmd.spawn(move |ctx| async move {
+                let _held = tok_x;
+                let _v = ctx.request_from_shell(COp::Ask(Token::new())).await;
+                // the sibling is woken by the same answer and queued behind this task
+                let _ = tx.send(());
+                let child_tok = Token::new();
+                ctx.spawn(move |_ctx| async move {
+                    let _held = child_tok;
+                });
+                own.abort();
+            });
+            cmd.spawn(move |_ctx| async move {
+                let _ = rx.await;
+            });
+            cmd
+        }
         CEvent::Noop => Command::done(),
         CEvent::Joined(_tok) => {
             sat_inc(&mut model.got);
